@@ -13,6 +13,11 @@ from vf.stubs.wsess import WSession
 QUICK = MODE["tier"] != "thorough"
 HOSTH = (b"Host", b"example.com")
 
+def _fin(sess, value):
+    sess.close()
+    return value
+
+
 STARTUP = ["complete", "failed", "raises (no lifespan support)", "hangs", "returns without answering", "sends an unknown message", "complete after 2 s"]
 SHUTDOWN = ["complete", "failed", "raises", "hangs", "returns without answering"]
 
@@ -96,7 +101,7 @@ def make_app(su: int, sd: int, work: dict):
              "hypercorn/asyncio/lifespan.py::Lifespan.wait_for_shutdown", "hypercorn/asyncio/lifespan.py::Lifespan.asgi_send", "hypercorn/asyncio/tcp_server.py::TCPServer.run"],
     stubs=["tier C, worker level: the real asyncio.start_server / base_events.Server on the virtual loop with a fake listening socket; randint stubbed", "trio worker_serve is outside this check (see DESIGN.md C14)"],
 )
-def lifespan_ordering(su: int, sd: int, early: bool, inflight: bool) -> bool:
+def lifespan_ordering(su: int, sd: int, early: bool, inflight: bool) -> bool:  # noqa: C901
     """
     pre: DOM(lifespan_ordering, su=su, sd=sd, early=early, inflight=inflight)
     post: _
@@ -119,14 +124,14 @@ def lifespan_ordering(su: int, sd: int, early: bool, inflight: bool) -> bool:
             why = f"startup.failed did not abort the server: returned={s.returned} error={s.error!r}"
         elif s.listening() or any(e[0] == "request" for e in s.log):
             why = "something was served although startup failed"
-        return done(why == "", startup=STARTUP[su], why=why)
+        return _fin(s, done(why == "", startup=STARTUP[su], why=why))
     if not why and su == 3:
         s.advance(5)
         if not s.returned or not isinstance(s.error, LifespanTimeoutError):
             why = f"startup timeout did not abort the server: returned={s.returned} error={s.error!r}"
         elif s.listening():
             why = "listening although startup never completed"
-        return done(why == "", startup=STARTUP[su], why=why)
+        return _fin(s, done(why == "", startup=STARTUP[su], why=why))
     if not why and not s.listening():
         why = f"server is not listening after startup '{STARTUP[su]}' (error={s.error!r})"
     if not why:
@@ -180,7 +185,7 @@ def lifespan_ordering(su: int, sd: int, early: bool, inflight: bool) -> bool:
                     why = f"hanging lifespan shutdown did not end in a timeout error: {s.error!r}"
                 elif sd == 1 and not isinstance(s.error, LifespanFailureError) and s.error is not None and not isinstance(s.error, BaseExceptionGroup):
                     why = f"unexpected error {s.error!r}"
-    return done(why == "", startup=STARTUP[su], shutdown=SHUTDOWN[sd], early=early, inflight=inflight, why=why)
+    return _fin(s, done(why == "", startup=STARTUP[su], shutdown=SHUTDOWN[sd], early=early, inflight=inflight, why=why))
 
 
 # ------------------------------------------------------------------ C15
@@ -316,4 +321,74 @@ def graceful_shutdown(k0: int, k1: int, source: int, sd: int) -> bool:
         for k, tr in zip(kinds, conns):
             if not tr.lost and not tr.closing:
                 why = f"{KINDS[k]} still open after serve() returned"
-    return done(why == "", kinds=[KINDS[k] for k in kinds], source=["callable", "max_requests"][source], shutdown=SHUTDOWN[sd], why=why)
+    return _fin(s, done(why == "", kinds=[KINDS[k] for k in kinds], source=["callable", "max_requests"][source], shutdown=SHUTDOWN[sd], why=why))
+
+
+# ------------------------------------------------------------------ per-connection copy of the lifespan state (both workers)
+
+
+@harness(
+    "C14",
+    dom={"flavour": (0, 1), "proto": (0, 2), "conns": (2, 3)},
+    split={"flavour": "each", "proto": "each"},
+    witnesses=[{"flavour": 0, "proto": 0, "conns": 2}, {"flavour": 1, "proto": 1, "conns": 3}],
+    budget=120,
+    per_path=120,
+    bounds="2..3 consecutive connections (HTTP/1.1, HTTP/2 via ALPN, WebSocket) served by each worker's TCPServer from one lifespan state dict; every application instance writes into scope['state']",
+    encodes=["hypercorn/asyncio/tcp_server.py::TCPServer.run", "hypercorn/trio/tcp_server.py::TCPServer.run", "hypercorn/protocol/http_stream.py::HTTPStream.handle", "hypercorn/protocol/ws_stream.py::WSStream.handle"],
+    stubs=["tier C runtimes (virtual asyncio loop / trio MockClock)", "the lifespan state is handed to TCPServer the way worker_serve does (one dict for all connections)"],
+    tiers=("quick", "thorough"),
+)
+def connection_state_copy(flavour: int, proto: int, conns: int) -> bool:
+    """
+    pre: DOM(connection_state_copy, flavour=flavour, proto=proto, conns=conns)
+    post: _
+    """
+    from vf.session import run_session
+    from vf.stubs.b import make_config
+    from vf.stubs.clients import H2Client, h1_request, ws_h1_handshake
+
+    enter()
+    flavour = "asyncio" if conc(flavour, 0, 1) == 0 else "trio"
+    proto = conc(proto, 0, 2)
+    conns = conc(conns, 2, 3)
+    lifespan_state = {"from_lifespan": "shared"}
+    seen = []
+
+    def factory(env):
+        async def app(scope, receive, send, sync_spawn=None, call_soon=None):
+            seen.append(dict(scope["state"]))
+            scope["state"]["touched_by"] = len(seen)
+            if scope["type"] == "websocket":
+                await receive()
+                await send({"type": "websocket.accept"})
+                await send({"type": "websocket.close", "code": 1000})
+                return
+            await receive()
+            await send({"type": "http.response.start", "status": 200, "headers": [(b"content-length", b"0")]})
+            await send({"type": "http.response.body", "body": b"", "more_body": False})
+
+        return app
+
+    why = ""
+    for i in range(conns):
+        if proto == 0:
+            data, alpn = h1_request("GET", b"/c%d" % i, [(b"Host", b"example.com"), (b"Connection", b"close")]), None
+        elif proto == 1:
+            c = H2Client()
+            c.request(1, b"GET", b"/c%d" % i, end_stream=True)
+            data, alpn = c.take(), "h2"
+        else:
+            data, alpn = ws_h1_handshake(), None
+        obs = run_session(flavour, factory, make_config(), [("feed", data), ("sleep", 0.1), ("eof",), ("sleep", 0.5)], alpn=alpn, state=lifespan_state)
+        if obs["handler_error"] is not None:
+            why = "connection handler raised %r" % (obs["handler_error"],)
+            break
+    if not why:
+        if len(seen) != conns:
+            why = f"{len(seen)} application instances for {conns} connections"
+        elif any(st != {"from_lifespan": "shared"} for st in seen):
+            why = f"a connection saw what another connection wrote into its state: {seen!r}"
+        elif lifespan_state != {"from_lifespan": "shared"}:
+            why = f"a connection wrote through to the lifespan state itself: {lifespan_state!r}"
+    return done(why == "", flavour=flavour, protocol=["HTTP/1.1", "HTTP/2", "WebSocket"][proto], connections=conns, why=why)
